@@ -332,6 +332,13 @@ pub fn gen_element(r: &mut Rng, out: &mut Vec<u8>, flavor: Flavor) {
             };
             out.extend_from_slice(&s[..at]);
             out.push(ins);
+            if r.chance(1, 3) {
+                // a RUN of executed whitespace inside the sequence (CR LF, TAB TAB LF): it is a printable run of its own that
+                // starts and ends with the parser inside the sequence
+                for _ in 0..r.range(1, 3) {
+                    out.push(*r.pick(&[9u8, 10, 13, 10, 12]));
+                }
+            }
             out.extend_from_slice(&s[at..]);
         }
         20 => {
